@@ -8,7 +8,7 @@ CONSTANTS
   FullMaxK = 2
   PowMaxK = 3
   CaseNd = {1, 2, 3, 4, 12, 13}
-  BoundaryCols = {0, 1, 31, 32, 33, 127, 128, 249, 250}
+  BoundaryCols = {0, 1, 2, 31, 32, 33, 127, 128, 129, 248, 249, 250}
 INIT RCInit
 NEXT JobStep
 INVARIANT RCJobInv
